@@ -203,6 +203,49 @@ def ops : List (String × Op) := [
                    else .fail
           pure (showVerdict shape v)
       | _, _, _ => do let _ ← pRest; pure "n/a"),
+  ("hap", do
+      let off ← pOff; let ref ← pSeq
+      let rawHaps ← pList (pList pRawVar)
+      let rawMembers ← pList (do
+        let _kind ← tok
+        pList (do let st ← pStrand; let bs ← pBlocks; pure (st, bs)))
+      pArrow
+      let haps? := rawHaps.mapM (relEdits off)
+      let members? := rawMembers.mapM (fun m => m.mapM (fun l => (relBlocks off l.2).map (fun b => (l.1, b))))
+      match haps?, members? with
+      | some haps, some members =>
+        match (← tok) with
+        | "ok" => do
+          -- (hap <i> <count> (member <j> <nleaf> (<strand> <k> blocks <seq>)*nleaf)*count)*nh [extra <n>]
+          let rec pBuckets : Nat → P (Option (List BucketOut))
+            | 0 => pure (some [])
+            | n + 1 => do
+              let h ← tok
+              if h ≠ "hap" then pure none else
+              let _i ← pNat
+              let es ← pList (do
+                let m ← tok
+                if m ≠ "member" then throw "member?"
+                let j ← pNat
+                let leaves ← pList (do
+                  let (st, bl) ← pStBlocks; let sq ← pSeq
+                  match relBlocks off bl with
+                  | some rb => pure (Lifted.mk st rb sq)
+                  | none => throw "block left of the window")
+                pure (j, leaves))
+              match ← pBuckets n with
+              | some rest => pure (some (es :: rest))
+              | none => pure none
+          let tbl ← pBuckets haps.length
+          let trailing ← pRest
+          match tbl with
+          | some t =>
+            if !trailing.isEmpty then pure "fail unexpected-keys-in-mapping" else
+            let v := okHap ref members haps (some t)
+            pure (showVerdict (v = .fail && hapFailureIsShaped ref members haps t) v)
+          | none => pure "fail unreadable-answer"
+        | _ => do let _ ← pRest; pure (showVerdict false (okHap ref members haps none))
+      | _, _ => do let _ ← pRest; pure "n/a"),
   ("vcf", do
       let recs ← pList pVcfRec; pArrow
       match (← tok) with
